@@ -27,7 +27,6 @@ use vcore::targets::{self, Outcome, same_value_or_both_err, show};
 use vcore::val::Val;
 use vcore::ydoc::{Node, RenderOpts};
 
-const POLICY_NAMES: [&str; 3] = ["Error", "FirstWins", "LastWins"];
 const TARGETS: [&str; 5] = ["Val", "MapValVal", "MapStrVal", "Rec", "json"];
 
 fn opts(policy: usize) -> serde_saphyr::Options {
@@ -1266,13 +1265,11 @@ fn main() {
             i % step == 0
         });
     }
-    eprintln!("specs {} at {:.1}s", specs.len(), run.elapsed_s());
     acc::count("exhaustive_specs", specs.len() as u64);
     par_range(specs.len(), |i| {
         check_spec(&run, &specs[i], "exhaustive", &both, i % 20011 == 0);
     });
     drop(specs);
-    eprintln!("phase exhaustive done at {:.1}s", run.elapsed_s());
 
     // ---- 2. look-alike keys that are *different* keys: tag differs, element differs, value differs
     {
@@ -1326,8 +1323,6 @@ fn main() {
             check_doc(&run, doc, doc.starts_with('{'), "custom-tag-look-alike");
         }
     }
-
-    eprintln!("phase look-alike done at {:.1}s", run.elapsed_s());
     // ---- 3. large / deep values after (and at) the repeated key
     let debug_limited = std::env::var("C04_LIMIT").is_ok();
     if debug_limited {
@@ -1411,10 +1406,8 @@ fn main() {
             check_spec(&run, spec, "large-value", layouts, i % 97 == 0);
         });
     }
-
-    eprintln!("phase large done at {:.1}s", run.elapsed_s());
     // ---- 4. seeded random mappings
-    let n_random = if debug_limited { 2000 } else { tier.pick(40_000, 1_000_000) };
+    let n_random = if debug_limited { 2000 } else { tier.pick(40_000, 600_000) };
     par_range(n_random, |i| {
         let mut rng = Rng::stream(run.seed, i as u64);
         let spec = random_spec(&mut rng, 2);
@@ -1422,8 +1415,6 @@ fn main() {
         acc::count("random_docs", 1);
         check_spec(&run, &spec, "random", &[flow], i % 9973 == 0);
     });
-
-    eprintln!("phase random done at {:.1}s", run.elapsed_s());
     let scope = format!(
         "mappings whose entry keys follow every restricted-growth string of length 2..=3 over <= 3 key ids; every repeated id's key kind in {{scalar, sequence, mapping}}; every later occurrence written {{identically, in another style, as an alias to the first}}; every entry's value in {{token, [], {{}}, small nest, alias to a 50-element anchor, mapping with own duplicates and merges}}; test mapping at {{root, sequence item followed by a tail, mapping value followed by a tail}}; {{block, flow}}. Length 4 in the same way but {}",
         if tier == Tier::Quick { "with the value varied only at the discarded (later) entries and the mapping at the root" } else { "with the value varied at every entry whose key takes part in a repeat" }
